@@ -85,6 +85,29 @@ def dotted(expr):
     return None
 
 
+_KNOWN = []
+
+
+def _reference():
+    """names of the reference tree (recorded by tools/reference_names.py): functions, the locals of every function,
+    the module-level names of every module.  What is not among them is new: a new private helper is inlined at its
+    call sites (sa/inline.py), a new constant or local is read through (sa/normalize.py)"""
+    if not _KNOWN:
+        import json
+        p = os.path.join(os.path.dirname(os.path.abspath(__file__)), 'rules', 'reference_names.json')
+        ref = None
+        if os.path.exists(p):
+            ref = json.load(open(p))
+            ref['functions'] = set(ref['functions'])
+        _KNOWN.append(ref)
+    return _KNOWN[0]
+
+
+def _known_functions():
+    ref = _reference()
+    return ref['functions'] if ref else None
+
+
 class _CanonicalUpdates(ast.NodeTransformer):
     """One spelling for "update in place by a number":  T = T + k  /  T = T - k  (k a numeric literal, T a name,
     attribute or subscript) is read as  T += k  /  T -= k.  Positions are kept, so reports still point at the line."""
@@ -335,6 +358,7 @@ class Model:
         self.overlay = overlay or {}
         self.modules, self.classes, self.funcs = {}, {}, {}
         self.files = []
+        self.inlined = []
         self._load()
         self._link()
 
@@ -366,6 +390,16 @@ class Model:
                 name = name[:-9]
             elif name == '__init__':
                 name = ''
+            from . import normalize
+            tree = normalize.default_idiom(tree)
+            ref = _reference()
+            if ref is not None and not os.environ.get('VERIF_NO_NORMALIZE'):
+                from . import inline
+                for c in normalize.fold_new_constants(tree, ref['module_names'].get(name)):
+                    self.inlined.append('constant %s.%s read through' % (name, c))
+                self.inlined += inline.apply(tree, name, ref['functions'], ref['locals'])
+                for v in normalize.forward_new_locals(tree, name, ref['locals']):
+                    self.inlined.append('local %s read through' % v)
             mi = ModuleInfo(name, rel, src, tree)
             mi.model = self
             self.modules[name] = mi
